@@ -9,7 +9,8 @@ def run(res):
         model_files=["theories/Client/Queues.v"],
         theorem_note="Properties/C13.v: C13_conservation, C13_result_matches_op, C13_await_sound, C13_converged_is_answered, "
                      "C13_rib_ack_not_terminal_in_fib_mode, C13_violations_surface (+ C13_unknown_id_is_violating, "
-                     "C13_duplicate_terminal_is_violating) for the repaired client; C13_unknown_rib_ack_refuted for the tree",
+                     "C13_duplicate_terminal_is_violating) for the repaired client; without any assumption on the ids: C13_never_silently_gone, "
+                     "C13_same_id_twice_is_rejected, C13_pending_id_is_rejected, C13_rejected_request_surfaces; C13_unknown_rib_ack_refuted for the tree",
         trusted=["Coq 8.16.1 kernel + vm_compute",
                  "hand-written sequential model Client/Queues.v of client/gribiclient.go, validated on every run against the real client",
                  "correspondence harness vh-c13: real client over in-memory gRPC (bufconn) against a scripted stub server; "
@@ -21,7 +22,9 @@ def run(res):
                      "both answers the last pending operation and records a receive error - none may return nil; vh-c13 c13ack: an application looping Results() + AckResult(what it was shown) while the server "
                      "streams one result per response - acknowledged results + final Results() must be exactly the results sent); other interleavings are C14's subject",
                      "TreatRIBACKAsCompletedInFIBACKMode = false (the default)",
-                     "queued operation ids pairwise distinct (the theorems' hypothesis; duplicate ids are modelled and compared, not claimed)",
+                     "queued operation ids pairwise distinct is the hypothesis of the conservation theorems (exactly one terminal result); reused ids "
+                     "(twice inside one request, of a pending / completed operation) are generated, compared with the model and covered by "
+                     "C13_never_silently_gone / C13_rejected_request_surfaces and the per-operation oracle (pending as itself | resulted with its type and key | send error recorded by its Q)",
                      "AckResult is outside the Coq model (it only removes results: by operation id, exactly those it is given); its contract and its "
                      "interleavings with the receiver are checked on the implementation by the oracle of vh-c13 c13ack, with ONE application goroutine "
                      "(AckResult replaces the queue under the READ lock: concurrent AckResult / Results callers race - reported, not exercised)"],
